@@ -102,6 +102,9 @@ struct Ctx {
     trace_points: u64,
     /// a few small compiled programs kept as merge prefixes
     prefixes: Vec<Bytecode>,
+    /// bounded search for a concrete ill-formed execution after a rejection
+    witness_searches: u32,
+    witness_found: bool,
 }
 
 fn report_reject(ev: &mut Ev, src: &Source, packaging: &str, t: &Tables, c: &Cert) {
@@ -166,6 +169,25 @@ fn system_tie(cx: &mut Ctx, ev: &mut Ev, src: &Source, lines: &[String]) {
     cx.functions += c.functions as u64;
     if c.reject.is_some() {
         report_reject(ev, src, "repl-merged", &t, &c);
+        let mut all: Vec<(String, &Trace, Option<usize>)> =
+            run.repl_lines.iter().enumerate().map(|(i, t)| (format!("repl line {i}"), t, entry_locals[i])).collect();
+        for (pid, t) in &run.traces {
+            all.push((format!("process {pid}"), t, None));
+        }
+        for (who, t, el) in all {
+            if t.is_empty() {
+                continue;
+            }
+            if let Some((k, what)) = check_trace_from(&program.functions, &[], t, el).mismatch {
+                ev.violation(
+                    "run kind=ill-formed-execution path=system",
+                    &format!("{} runs into ill-formed bytecode on the real VM (full system, {who}, trace point {k}): {what}", src.origin),
+                    json!({"origin": src.origin, "source": src.text, "lines": lines, "who": who, "what": what}),
+                    true,
+                );
+                break;
+            }
+        }
         return;
     }
     let Some(anns) = parse_anns(&cx.model.ask("(annotations)")) else { return };
@@ -279,6 +301,42 @@ fn process_source(cx: &mut Ctx, ev: &mut Ev, src: &Source, rng: &mut Rng, run_it
     let as_compiled_ok = c.reject.is_none();
     if !as_compiled_ok {
         report_reject(ev, src, "as-compiled", &t, &c);
+        // search for an input that drives the real VM into the ill-formed path: this program's
+        // own runs (sync path, and the full system when it has processes), replayed without
+        // annotations
+        if run_it && cx.witness_searches < 25 && !cx.witness_found {
+            cx.witness_searches += 1;
+            let (_, trace) = run_traced(&bc, &cx.b, 400);
+            let tc = check_trace(&bc.functions, &[], &trace);
+            let mut witness = tc.mismatch.map(|(k, w)| (format!("sync run, trace point {k}"), w));
+            if witness.is_none() && has_process_ops(&bc) {
+                if let Ok(run) = run_system_traced(&src.text, &cx.b, 1500) {
+                    let mut all: Vec<(String, &Trace)> = run.repl_lines.iter().enumerate().map(|(i, t)| (format!("repl line {i}"), t)).collect();
+                    for (pid, t) in &run.traces {
+                        all.push((format!("process {pid}"), t));
+                    }
+                    for (who, t) in all {
+                        if t.is_empty() {
+                            continue;
+                        }
+                        if let Some((k, w)) = check_trace(&run.program.functions, &[], t).mismatch {
+                            witness = Some((format!("full system, {who}, trace point {k}"), w));
+                            break;
+                        }
+                    }
+                }
+            }
+            if let Some((whre, what)) = witness {
+                cx.witness_found = true;
+                ev.violation(
+                    "run kind=ill-formed-execution",
+                    &format!("{} runs into ill-formed bytecode on the real VM ({whre}): {what}", src.origin),
+                    json!({"origin": src.origin, "source": src.text, "where": whre, "what": what,
+                           "checker": c.reject.clone().map(|(f, pc, why)| format!("function {f} pc {pc}: {why}"))}),
+                    true,
+                );
+            }
+        }
     }
 
     // trace tie on the as-compiled program
@@ -479,7 +537,7 @@ fn main() {
         .into();
     let b = qverif::run::builtins();
     let model = Model::spawn(opts.model.as_ref().expect("--model"));
-    let mut cx = Ctx { b, model, programs: 0, functions: 0, instructions: 0, trace_points: 0, prefixes: vec![] };
+    let mut cx = Ctx { b, model, programs: 0, functions: 0, instructions: 0, trace_points: 0, prefixes: vec![], witness_searches: 0, witness_found: false };
 
     // debugging aid: `c07 --dump FILE.qv` prints the compiled functions, the model's annotations
     // and the executor's trace of that program
